@@ -18,6 +18,11 @@ bm = importlib.import_module("cayleypy.algo.bfs_bitmask")  # module with the ran
 
 THEOREMS = [
     "Cv.C11i.ibfs_layers",
+    "Cv.bfsBitset_spec",
+    "Cv.bfsNumpy_spec",
+    "Cv.lexUnrank_lexRank",
+    "Cv.lexRank_lt_factorial",
+    "Cv.lexRank_injective",
 ]
 
 
@@ -211,7 +216,7 @@ def main():
         c = body["case"]
         {"numpy": run_numpy, "interactive": run_interactive, "walk": run_walk, "bitmask": run_bitmask}.get(c.get("engine"), run_interactive)(ck, c)
         ck.finish(rule="replay of one recorded case")
-    ck.lean_obligations(['CvProps.C11', 'CvProps.C11i'], THEOREMS)
+    ck.lean_obligations(['CvProps.C11i', 'CvProps.C11e'], THEOREMS)
     for case in json.load(open(os.path.join(VERIF, "harness", "corpus", "C11.json"))):
         {"numpy": run_numpy, "interactive": run_interactive, "walk": run_walk, "bitmask": run_bitmask}[case["engine"]](ck, case)
         ck.count("corpus")
